@@ -131,7 +131,7 @@ class Sim03(scenario.Sim):
         self.mark("end")
         for name, op in self.ops.items():
             if op.alive and not op.killed:
-                r = await op.stop()
+                r = await op.stop(timeout=float(self.sc.get("stop_grace", 8.0)))
                 self.mark("stopped", op=name, inc=op.n, result=repr(r), final=True)
         return self.obs.trace()
 
@@ -148,8 +148,11 @@ class Sim03(scenario.Sim):
             op = self.ops.get("op")
             if kind == "stop":
                 if op is not None and op.alive and not op.killed:
-                    r = await op.stop()
+                    # a supervisor's view: ask for a graceful stop, kill after the grace period
+                    r = await op.stop(timeout=float(sc.get("stop_grace", 8.0)))
                     self.mark("stopped", op="op", inc=op.n, result=repr(r))
+                    if r == "stop-timeout":
+                        self._do_kill("stop-timeout")
             elif kind == "kill":
                 self._do_kill("plain")
             elif kind == "killw":
